@@ -30,7 +30,7 @@ RE_POP = re.compile(r"POP")
 RE_POP_ALL = re.compile(r"POP_ALL")
 RE_PUSH = re.compile(r"PUSH")
 RE_PUSH_LITERAL = re.compile(r"PUSH_LITERAL")
-RE_RANGE_OP = re.compile(r"..")
+RE_RANGE_OP = re.compile(r"\.\.")
 RE_RULE_DOC = re.compile(r"///")
 RE_TAG = re.compile(r"#[_a-zA-z][_a-zA-Z0-9]+(?=\s*=)")
 RE_WHITESPACE = re.compile(r"[ \t\n\r]+")
